@@ -437,6 +437,8 @@ struct Node {
     /// append-only monitor: block identity first seen in memory / handed over, per number
     seen: BTreeMap<u64, Block>,
     handoffs_reported: usize,
+    /// highest `queued().next()` / `persisted().next()` observed in this incarnation (theorem next_monotone)
+    max_next: (u64, u64),
 }
 
 struct World {
@@ -537,6 +539,7 @@ impl C08 {
                 req_blocks: BTreeMap::new(),
                 finished: Arc::new(Mutex::new(vec![])),
                 seen: BTreeMap::new(),
+                max_next: (0, 0),
                 handoffs_reported: 0,
             })
         })
@@ -683,6 +686,18 @@ impl C08 {
         let _ = racy;
         let mut found: Vec<(String, String)> = vec![];
         let mut fail = |site: &str, what: String, _this: &Self| found.push((site.to_string(), what));
+        // append-only (theorem next_monotone): within one incarnation the store's head never moves backwards — whatever
+        // the storage reports (pruning included), blocks that were announced as available above the pruning point stay
+        {
+            let (mq, mp) = self.world.as_ref().unwrap().node.max_next;
+            if q.next().0 < mq {
+                fail("append-only/head-moved-back", format!("queued.next() went from {mq} back to {} (queued {})", q.next().0, range_json(&q)), self);
+            }
+            if p.next().0 < mp && honest {
+                fail("append-only/head-moved-back", format!("persisted.next() went from {mp} back to {}", p.next().0), self);
+            }
+            self.world.as_mut().unwrap().node.max_next = (mq.max(q.next().0), mp.max(p.next().0));
+        }
         // ranges ordered
         if p.next() > q.next() || p.first > q.first {
             fail("ranges", format!("persisted {} runs ahead of queued {}", range_json(&p), range_json(&q)), self);
